@@ -79,6 +79,15 @@ SizeB(e) ==
     [] e.k = "Unitary" -> Len(e.m[1])
     [] OTHER -> e.q[1][1]                    \* base classes carry their length as first parameter
 Size(e) == SizeB(e)
+\* L2Proj(axes = ...): the array is cut into g groups (rows of a [g, n/g] array for axes = last) with one ball each.
+\* "L2ProjG" carries q = <<n, eps, g>> and the bias vector; group j is the j-th run of n/g consecutive elements.
+RECURSIVE HasGroups(_)
+HasGroupsB(e) == e.k = "L2ProjG" \/ \E i \in 1..Len(e.s) : HasGroups(e.s[i])
+HasGroups(e) == HasGroupsB(e)
+Chunk(u, j, m) == SubSeq(u, (j - 1) * m + 1, j * m)
+RECURSIVE CatTo(_, _)
+CatToB(f, n) == IF n = 0 THEN <<>> ELSE CatTo(f, n - 1) \o f[n]
+CatTo(f, n) == CatToB(f, n)
 
 \* ---------------------------------------------------------------- MECHANISM: closed forms
 \* soft threshold  (|v| - t)+ v/|v|   (needs |v| exactly)
@@ -128,6 +137,8 @@ ProxModelB(e, al, u) ==
              d == RAdd(RInt(1), la)
          IN ProxModel(e.s[1], RDiv(al, d), VScale(RInv(d), w))
     [] e.k = "L2Proj"   -> LET b == e.v[1] IN VAdd(L2ProjModel(e.q[2], VSub(u, b)), b)
+    [] e.k = "L2ProjG"  -> LET g == e.q[3][1]  m == Len(u) \div g  b == e.v[1] IN
+         CatTo(TLCEval([j \in 1..g |-> VAdd(L2ProjModel(e.q[2], VSub(Chunk(u, j, m), Chunk(b, j, m))), Chunk(b, j, m))]), g)
     [] e.k = "LInfProj" -> LET b == e.v[1]  w == VSub(u, b) IN VAdd(VSub(w, SoftV(e.q[2], w)), b)
     [] e.k = "L1Proj"   -> L1ProjModel(e.q[2], u)
     [] e.k = "Box"      -> TLCEval([i \in 1..Len(u) |-> <<ClipR(e.q[2], e.q[3], u[i][1]), RInt(0)>>])
@@ -172,6 +183,8 @@ IsMinimiserB(e, al, v, x) ==
              w == IF Len(e.v) = 0 THEN v ELSE VAdd(v, VScale(la, e.v[1])) IN
          IsMinimiser(e.s[1], RDiv(al, d), VScale(RInv(d), w), x)
     [] e.k = "L2Proj"   -> BallVec(e.q[2], e.v[1], v, x)
+    [] e.k = "L2ProjG"  -> LET g == e.q[3][1]  m == Len(v) \div g IN      \* the indicator is separable over the groups
+         \A j \in 1..g : BallVec(e.q[2], Chunk(e.v[1], j, m), Chunk(v, j, m), Chunk(x, j, m))
     [] e.k = "LInfProj" -> \A i \in 1..Len(v) : BallVec(e.q[2], <<e.v[1][i]>>, <<v[i]>>, <<x[i]>>)
     [] e.k = "L1Proj"   ->
          LET ax == AbsV(x)
@@ -220,6 +233,7 @@ WrapStack ==
   /\ wraps' = wraps + 1 /\ UNCHANGED <<alpha, y, out, phase>>
 WrapUnitary ==
   /\ phase = "build" /\ wraps < MaxWraps
+  /\ ~HasGroups(cur)                         \* (the replay has no array shape that serves both MatMul and the groups)
   /\ \E U \in Unitaries : Len(U) = Size(cur) /\ (HasBox(cur) => IsRealMat(U)) /\ cur' = Mk("Unitary", <<>>, <<>>, <<U>>, <<cur>>)
   /\ wraps' = wraps + 1 /\ UNCHANGED <<alpha, y, out, phase>>
 \* P(alpha, y): enabled when the model is exact on this point (every modulus it needs is rational)
@@ -239,9 +253,13 @@ Spec == Init /\ [][Next]_vars
 Evaluated == phase = "done"
 ModelIsMinimiser == Evaluated => IsMinimiser(cur, alpha, y, out)
 ShapeKept == Evaluated => Len(out) = Len(y)
-IsProjection(e) == e.k \in {"L2Proj", "LInfProj", "L1Proj", "Box"}
+IsProjection(e) == e.k \in {"L2Proj", "L2ProjG", "LInfProj", "L1Proj", "Box"}
 \* projections: idempotent; a point that is its own minimiser is returned unchanged
 Idempotent == (Evaluated /\ IsProjection(cur)) =>
                  LET again == ProxModel(cur, alpha, out) IN ExactV(again) => again = out
+\* one group is the plain ball; groups do not see each other: changing the input outside a group leaves the group's result alone
+GroupsAreIndependent == (Evaluated /\ cur.k = "L2ProjG") =>
+   LET g == cur.q[3][1]  m == Len(y) \div g IN
+   \A j \in 1..g : Chunk(out, j, m) = ProxModel(Mk("L2Proj", <<RInt(m), cur.q[2]>>, <<Chunk(cur.v[1], j, m)>>, <<>>, <<>>), alpha, Chunk(y, j, m))
 FeasibleIsFixed == (Evaluated /\ IsProjection(cur) /\ IsMinimiser(cur, alpha, y, y)) => out = y
 =========================================================================
